@@ -40,7 +40,7 @@ def build_linen(t, form, scope):
 def linen_part(chk):
   from flax.core import scope
   thorough = chk.thorough
-  res = tlc.require_ok(tlc.run('Filters', 'Filters_pairs.cfg', workers=1))
+  res = tlc.require_ok(tlc.run('Filters', 'Filters_pairs3.cfg', workers=1))
   chk.add_tlc(res, 'Filters pairs (3 names, DenyList depth 2)')
   if len(res['exports']) != res['distinct']:
     raise tlc.TLCError('export count != distinct states')
@@ -101,7 +101,8 @@ def linen_part(chk):
     cols = case['cols']
     order = list(cols)
     random.Random(chk.seed * 7919 + idx).shuffle(order)
-    xs = {c: {'v': np.full((1,), i, np.int32)} for i, c in enumerate(order)}
+    # a collection may be present but empty (never written to): it still belongs to the first group whose filter matches its name
+    xs = {c: ({} if (idx + i) % 4 == 3 else {'v': np.full((1,), i, np.int32)}) for i, c in enumerate(order)}
     key = 'C14:group:' + '|'.join(term_str(t) for t in case['fs']) + ':' + ','.join(sorted(cols))
     try:
       groups = scope.group_collections(xs, fs)
@@ -115,7 +116,7 @@ def linen_part(chk):
     # values travel with their collection and are copies (containers), not the caller's dicts
     for g in groups:
       for c, v in g.items():
-        if v is xs[c] or int(v['v'][0]) != order.index(c):
+        if (v is xs[c] and len(v)) or (len(xs[c]) != len(v)) or (len(v) and int(v['v'][0]) != order.index(c)):
           bad = True
     if bad:
       chk.violation(key, f'group_collections({sorted(cols)}, {fs!r}) = {got}, reference first-match partition {exp}', case)
